@@ -219,4 +219,44 @@ theorem transferPNFT_frame {c : AddrCodec} {now : Int} {s s' : State} {denomId i
   obtain ⟨p, r, _, _, _, _, rfl⟩ := transferPNFT_ok h
   exact ⟨rfl, rfl, rfl⟩
 
+theorem mint_idx {c : AddrCodec} {now : Int} {s s' : State} {denomId id name description uri uriHash data creator : Bytes}
+    (h : handle c now s (.mintPNFT denomId id name description uri uriHash data creator) = .ok s') :
+    ∃ d receiver, s.classes.get denomId = some d ∧ c.dec creator = some receiver ∧
+      s'.ownerIdx = s.ownerIdx.set (ownerIdxKey receiver d.id id) () := by
+  have hv := validate_ok h
+  simp only [handle, validateBasic, hv, bind, Outcome.bind, pure] at h
+  cases hg : s.classes.get denomId with
+  | none => simp [hg] at h
+  | some d =>
+    simp only [hg] at h
+    split at h
+    · simp at h
+    · cases hr : c.dec creator with
+      | none => simp [hr] at h
+      | some receiver =>
+        simp only [hr] at h
+        split at h
+        · simp at h
+        · simp at h
+          subst h
+          exact ⟨d, receiver, rfl, rfl, rfl⟩
+
+theorem burn_owner {c : AddrCodec} {now : Int} {s s' : State} {denomId id burner : Bytes}
+    (h : handle c now s (.burnPNFT denomId id burner) = .ok s') :
+    s'.owners = s.owners.del (nftKey denomId id) ∧
+      s'.ownerIdx = s.ownerIdx.del (ownerIdxKey (getOwner s denomId id) denomId id) := by
+  have hv := validate_ok h
+  simp only [handle, validateBasic, hv, bind, Outcome.bind, pure] at h
+  cases hg : getPNFT c s denomId id with
+  | none => simp [hg] at h
+  | some p =>
+    simp only [hg] at h
+    split at h
+    · simp at h
+    · split at h
+      · simp at h
+      · simp at h
+        subst h
+        exact ⟨rfl, rfl⟩
+
 end Panacea.Pnft
